@@ -136,7 +136,7 @@ func runFree(sid int, seed int64, wt time.Duration) ([]line, outcome) {
 		}
 		out.Steps++
 	}
-	kinds := []string{"other", "xclosed", "created", "closed", "lost", "won", "won", "shutdown", "fire", "fire"}
+	kinds := []string{"other", "xclosed", "created", "xowner", "xowner", "xownerp", "xdseq", "closed", "lost", "won", "won", "shutdown", "fire", "fire"}
 	n := f.intn(4)
 	for i := 0; i < n && !isDone(); i++ {
 		time.Sleep(time.Duration(f.intn(1500)) * time.Microsecond)
